@@ -904,12 +904,15 @@ func runReader(o frameOpts, src *tx.Src, rec *capRec) (deep bool, err error) {
 			continue // handled by OnIntermediate
 		}
 		var r io.Reader = rd
+		inflated := false
 		switch {
 		case h.OpCode.IsControl() && (o.handle || o.skip):
 			e = handler(h, rd)
 		case o.discard:
 			e = rd.Discard()
-		case o.ext && o.inflate && ms.IsCompressed():
+		case o.ext && o.inflate && !h.OpCode.IsControl() && ms.IsCompressed():
+			// (MessageState keeps the flag of the last data message: control frames are never inflated)
+			inflated = true
 			ctor := func(in io.Reader) wsflate.Decompressor {
 				lastCnt = newCnt(in, len(src.Data))
 				return flate.NewReader(lastCnt.iface())
@@ -937,6 +940,12 @@ func runReader(o frameOpts, src *tx.Src, rec *capRec) (deep bool, err error) {
 			}
 			if e == io.EOF {
 				e = nil
+				if inflated {
+					// the decompressor may see the end of its stream before the
+					// message ends: the rest of the message has to be dropped
+					// before NextFrame may be called again (Reader's contract)
+					e = rd.Discard()
+				}
 			}
 		}
 		if viol != nil {
